@@ -356,134 +356,3 @@ Lemma c13_repaired_on_witness :
   c13_lat_hi (c13_bounds_repaired P H c13_witness) = 63434949.
 Proof. vm_compute. split; reflexivity. Qed.
 
-(* ------------------------------------------------------------------------------------------ *)
-(* pole branches                                                                                *)
-
-Section Pole.
-  Variables P H : Z.
-  Hypothesis HP : 0 < P.
-  Hypothesis HH : 0 < H.
-  Hypothesis HF : FILL < - H.
-
-  (* inserting the pole point [+-H, FILL] touches one latitude bound only *)
-  Lemma c13_insert_pole_point b (north : bool) :
-    c13_lat_ok b ->
-    let b' := c13_insert P H b (if north then H else - H) FILL in
-    c13_lon_lo b' = c13_lon_lo b /\ c13_lon_hi b' = c13_lon_hi b /\
-    c13_lat_lo b' <> FILL /\ c13_lat_hi b' <> FILL /\
-    (c13_lat_lo b <> FILL -> c13_lat_lo b' <= c13_lat_lo b) /\
-    (c13_lat_hi b <> FILL -> c13_lat_hi b <= c13_lat_hi b' \/ c13_lat_hi b' = H) /\
-    (north = true -> c13_lat_hi b' = H /\ (c13_lat_lo b' = H \/ c13_lat_lo b' = c13_lat_lo b)) /\
-    (north = false -> c13_lat_lo b' = - H /\ (c13_lat_hi b' = - H \/ c13_lat_hi b' = c13_lat_hi b)).
-  Proof.
-    intros Hok. pose proof c13_FILL_neg as HFn. cbv zeta. unfold c13_insert, c13_norm.
-    rewrite Z.eqb_refl. unfold c13_lat_ok in Hok.
-    destruct north.
-    - assert (E1 : ((H =? FILL) && true) = false) by lia. rewrite E1. cbn [andb orb].
-      rewrite Z.eqb_refl. cbn [orb].
-      destruct ((c13_lat_lo b =? FILL) && (c13_lat_hi b =? FILL)) eqn:U;
-      destruct ((c13_lon_lo b =? FILL) && (c13_lon_hi b =? FILL)) eqn:V;
-      cbn [c13_lat_lo c13_lat_hi c13_lon_lo c13_lon_hi]; repeat split; try lia; intros; try lia.
-    - assert (E1 : ((- H =? FILL) && true) = false) by lia. rewrite E1. cbn [andb orb].
-      assert (E2 : (- H =? H) = false) by lia. rewrite E2, Z.eqb_refl. cbn [orb].
-      destruct ((c13_lat_lo b =? FILL) && (c13_lat_hi b =? FILL)) eqn:U;
-      destruct ((c13_lon_lo b =? FILL) && (c13_lon_hi b =? FILL)) eqn:V;
-      cbn [c13_lat_lo c13_lat_hi c13_lon_lo c13_lon_hi]; repeat split; try lia; intros; try lia.
-  Qed.
-
-  Definition c13_pinv (north : bool) (b : c13_box) (seen : list c13_edge) : Prop :=
-    c13_lon_ok P b /\ c13_lat_ok b /\
-    (seen <> [] -> c13_lon_init b /\ c13_lat_lo b <> FILL /\ c13_lat_hi b <> FILL /\
-                   (if north then c13_lat_hi b = H else c13_lat_lo b = - H)) /\
-    (forall e, In e seen ->
-       c13_lon_in b (c13_norm P (c13_lon1 e)) = true /\
-       (if north then c13_lat_lo b <= c13_lat1 e /\ c13_lat_lo b <= c13_emin e
-        else c13_lat1 e <= c13_lat_hi b /\ c13_emax e <= c13_lat_hi b)).
-
-  Lemma c13_pole_step north b c seen e :
-    c13_edge_ok H e -> c13_pinv north b seen ->
-    c13_pinv north (fst (c13_step_pole P H north (b, c) e)) (seen ++ [e]) /\
-    snd (c13_step_pole P H north (b, c) e) = (c && negb (c13_pole_here e)).
-  Proof.
-    intros Eok (Lok & Tok & Hne & Hall).
-    destruct (c13_edge_ok_regular H e HF Eok) as ([R1a R1b] & [R2a R2b] & [R3a R3b]). cbn [fst snd] in *.
-    unfold c13_edge_ok in Eok.
-    unfold c13_step_pole.
-    (* the optional pole point *)
-    set (b0 := if c13_pole_here e then c13_insert P H b (if north then H else - H) FILL else b).
-    assert (B0 : c13_lon_lo b0 = c13_lon_lo b /\ c13_lon_hi b0 = c13_lon_hi b /\ c13_lat_ok b0 /\
-                 (c13_lat_lo b <> FILL -> c13_lat_lo b0 <= c13_lat_lo b) /\
-                 (c13_lat_hi b <> FILL -> c13_lat_hi b <= c13_lat_hi b0 \/ c13_lat_hi b0 = H) /\
-                 (c13_lat_lo b <> FILL -> c13_lat_hi b <> FILL -> north = true -> c13_lat_hi b = H -> c13_lat_hi b0 = H) /\
-                 (c13_lat_lo b <> FILL -> c13_lat_hi b <> FILL -> north = false -> c13_lat_lo b = - H -> c13_lat_lo b0 = - H)).
-    { unfold b0. destruct (c13_pole_here e).
-      - destruct (c13_insert_pole_point b north Tok) as (A1 & A2 & A3 & A4 & A5 & A6 & A7 & A8). cbv zeta in *.
-        repeat split; auto; try (right; split; assumption); intros; destruct north; try discriminate.
-        + apply A7; reflexivity.
-        + apply A8; reflexivity.
-      - repeat split; auto; try lia. }
-    destruct B0 as (B1 & B2 & B3 & B4 & B5 & B6 & B7).
-    assert (Lok0 : c13_lon_ok P b0) by (unfold c13_lon_ok in *; rewrite B1, B2; exact Lok).
-    (* insertion of the node *)
-    pose proof (c13_insert_lon P H HP HH HF b0 (c13_lat1 e) (c13_lon1 e) R1b Lok0) as (L1 & L2 & L3). cbv zeta in L1, L2, L3.
-    pose proof (c13_insert_lat P H HP HH HF b0 (c13_lat1 e) (c13_lon1 e) R1b R1a) as (T1 & T2 & T3 & T4 & T5). cbv zeta in T1, T2, T3, T4, T5.
-    pose proof (c13_insert_lat_ok P H HP HH HF b0 (c13_lat1 e) (c13_lon1 e) R1b R1a B3) as (N1 & N2).
-    set (b1 := c13_insert P H b0 (c13_lat1 e) (c13_lon1 e)) in *.
-    assert (Lok1 : c13_lon_ok P b1) by (right; exact L1).
-    assert (Tok1 : c13_lat_ok b1) by (right; split; assumption).
-    set (x := if north then c13_emin e else c13_emax e).
-    assert (Rx : x <> FILL) by (unfold x; destruct north; assumption).
-    pose proof (c13_insert_lon P H HP HH HF b1 x (c13_lon1 e) R1b Lok1) as (M1 & M2 & M3). cbv zeta in M1, M2, M3.
-    pose proof (c13_insert_lat P H HP HH HF b1 x (c13_lon1 e) R1b Rx) as (S1 & S2 & S3 & S4 & S5). cbv zeta in S1, S2, S3, S4, S5.
-    pose proof (c13_insert_lat_ok P H HP HH HF b1 x (c13_lon1 e) R1b Rx Tok1) as (Q1 & Q2).
-    set (b2 := c13_insert P H b1 x (c13_lon1 e)) in *.
-    assert (Init1 : c13_lon_init b1) by (unfold c13_lon_init; lia).
-    assert (Res : c13_step_pole P H north (b, c) e =
-                  (if north then c13_set_lat_hi b2 H else c13_set_lat_lo b2 (- H), c && negb (c13_pole_here e))).
-    { unfold c13_step_pole, b2, b1, b0, x. destruct (c13_pole_here e), north, c; reflexivity. }
-    unfold c13_step_pole in Res. rewrite Res. cbn [fst snd]. split; [|reflexivity].
-    assert (Lon_e : c13_lon_in b2 (c13_norm P (c13_lon1 e)) = true) by exact M2.
-    assert (Lon_old : forall q, In q seen -> c13_lon_in b2 (c13_norm P (c13_lon1 q)) = true).
-    { intros q Hq. destruct (Hall q Hq) as [A _].
-      assert (Hs : seen <> []) by (intros E; rewrite E in Hq; destruct Hq).
-      destruct (Hne Hs) as (I0 & _).
-      assert (c13_lon_in b0 (c13_norm P (c13_lon1 q)) = true) by (unfold c13_lon_in in *; rewrite B1, B2; exact A).
-      assert (c13_lon_init b0) by (unfold c13_lon_init in *; rewrite B1, B2; exact I0).
-      assert (Hr : 0 <= c13_norm P (c13_lon1 q) < P).
-      { destruct Lok as [[E1 E2]|[R1 R2]]; [unfold c13_lon_init in I0; pose proof c13_FILL_neg; lia|].
-        unfold c13_lon_in in A. unfold c13_norm in *. pose proof c13_FILL_neg.
-        destruct (c13_lon1 q =? FILL) eqn:E; [|apply Z.mod_pos_bound; exact HP].
-        apply Z.eqb_eq in E. rewrite E in A. c13_ifs_in A; lia. }
-      apply M3; auto. }
-    destruct north.
-    - (* north: upper bound forced to H *)
-      unfold c13_pinv. unfold c13_set_lat_hi, c13_lon_ok, c13_lat_ok, c13_lon_init, c13_lon_in in *.
-      cbn [c13_lat_lo c13_lat_hi c13_lon_lo c13_lon_hi].
-      split; [right; exact M1|]. split; [right; split; [exact Q1|lia]|].
-      split; [intros _; repeat split; try lia; exact Q1|].
-      intros q Hq. apply in_app_or in Hq. destruct Hq as [Hq|[<-|[]]].
-      + split; [apply Lon_old; exact Hq|].
-        destruct (Hall q Hq) as [_ [A1 A2]].
-        assert (Hs : seen <> []) by (intros E; rewrite E in Hq; destruct Hq).
-        destruct (Hne Hs) as (_ & I1 & I2 & _).
-        specialize (B4 I1). specialize (T2 ltac:(destruct B3 as [[X Y]|[X Y]]; [lia|exact X])).
-        specialize (S2 N1). lia.
-      + split; [exact Lon_e|]. specialize (S2 N1). unfold x in *. lia.
-    - unfold c13_pinv. unfold c13_set_lat_lo, c13_lon_ok, c13_lat_ok, c13_lon_init, c13_lon_in in *.
-      cbn [c13_lat_lo c13_lat_hi c13_lon_lo c13_lon_hi].
-      split; [right; exact M1|]. split; [right; split; [lia|exact Q2]|].
-      split; [intros _; repeat split; try lia; exact Q2|].
-      intros q Hq. apply in_app_or in Hq. destruct Hq as [Hq|[<-|[]]].
-      + split; [apply Lon_old; exact Hq|].
-        destruct (Hall q Hq) as [_ [A1 A2]].
-        assert (Hs : seen <> []) by (intros E; rewrite E in Hq; destruct Hq).
-        destruct (Hne Hs) as (_ & I1 & I2 & I3).
-        assert (X0 : c13_lat_hi b <= c13_lat_hi b0).
-        { destruct (B5 I2) as [X|X]; [exact X|]. rewrite X. 
-          (* b0's upper bound is H: the old one is at most ... we only know it is a latitude <= H through the edges *)
-          lia. }
-        specialize (T3 ltac:(destruct B3 as [[X Y]|[X Y]]; [lia|exact Y])).
-        specialize (S3 N2). lia.
-      + split; [exact Lon_e|]. specialize (S3 N2). unfold x in *. lia.
-  Qed.
-End Pole.
